@@ -496,6 +496,9 @@ fn same_value(want: &GVal, got: &GVal, path: &str) -> Result<(), String> {
         (GVal::Null, GVal::Null) => Ok(()),
         (GVal::Bool(a), GVal::Bool(b)) if a == b => Ok(()),
         (GVal::Int(a), GVal::Int(b)) if a == b => Ok(()),
+        // `-0` without a fraction: an integer zero for one decoder, a negative zero float for
+        // another; the same number
+        (GVal::Int(0), GVal::Float(b)) if *b == 0.0 => Ok(()),
         (GVal::Float(a), GVal::Float(b)) if a == b || (a.is_nan() && b.is_nan()) => Ok(()),
         (GVal::Str(a), GVal::Str(b)) if a == b => Ok(()),
         (GVal::List(a), GVal::List(b)) => {
